@@ -1134,6 +1134,7 @@ namespace Dune
   typename std::enable_if<std::is_same<SizeOne, typename CommPolicy<Data>::IndexedTypeFlag>::value, void>::type
   BufferedCommunicator::build(const Interface& interface)
   {
+    free();
     interfaces_=interface.interfaces();
     communicator_=interface.communicator();
     typedef typename std::map<int,std::pair<InterfaceInformation,InterfaceInformation> >
@@ -1171,7 +1172,7 @@ namespace Dune
   template<class Data, class Interface>
   void BufferedCommunicator::build(const Data& source, const Data& dest, const Interface& interface)
   {
-
+    free();
     interfaces_=interface.interfaces();
     communicator_=interface.communicator();
     typedef typename std::map<int,std::pair<InterfaceInformation,InterfaceInformation> >
